@@ -25,7 +25,7 @@ META = set("*?:{}[]\\")
 
 # index in the model row (PatternInst.model_row) / spec row (PatternInst.spec_row)
 M_KM, M_KG, M_KM2, M_KM3, M_KM4, M_KM5, M_GLOB, M_GLOB0, M_KG2, M_KG3 = range(10)
-S_KEYOK, S_KM, S_KG, S_SEG2, S_SEG3, S_KM4, S_SEG5, S_GLOB, S_C2, S_C3 = range(10)
+S_KEYOK, S_KM, S_KG, S_SEG2, S_SEG3, S_KM4, S_SEG5, S_GLOB, S_C2, S_C3, S_G2, S_KM4E = range(12)
 ALL_FUNCS = ("key_match", "key_get", "key_match2", "key_match3", "key_match4", "key_match5", "glob_match",
              "key_get2", "key_get3")
 REGISTERED = {"key_match": "keyMatch", "key_match2": "keyMatch2", "key_match3": "keyMatch3",
@@ -155,7 +155,8 @@ class Runner:
                 self.spec_fail(dict(fn=fn, kind="export"), "casbin.util.%s_func is not the wrapper" % fn, "same object",
                                "casbin.util does not export the wrapper")
             if self.fm.get(name) is not w:
-                self.spec_fail(dict(fn=fn, kind="registration", name=name), repr(self.fm.get(name)), fn + "_func",
+                self.spec_fail(dict(fn=fn, kind="registration", name=name),
+                               getattr(self.fm.get(name), "__name__", type(self.fm.get(name)).__name__), fn + "_func",
                                "FunctionMap.load_function_map() registers another function under " + name)
 
     def wrappers_agree(self, fn, args, direct, case):
@@ -202,11 +203,14 @@ class Runner:
             rep1 = chk.oracle.query([(1, [p, keys, v]) for p, v in zip(part, vs)])
             rep2 = chk.oracle.query([(2, [p, keys, v]) for p, v in zip(part, vs)])
             for p, v, rows, (flags, srows) in zip(part, vs, rep1, rep2):
-                d2, d3, d4, d5, is_star = flags
+                d2, d3, d4, d5, is_star, g2 = flags
                 meta = any(c in META for c in p)
                 for k, m, s in zip(keys, rows, srows):
                     st["pairs"] += 1
                     kok = s[S_KEYOK]
+                    if d4 and s[S_KM4] != s[S_KM4E]:
+                        self.disagree(dict(fn="key_match4", key=k, pattern=p), s[S_KM4], s[S_KM4E],
+                                      "specs differ: km4_bind_spec (unique decomposition) vs km4_spec (all decompositions)")
                     n = 0
                     acc = False
                     if "key_match" in funcs:
@@ -247,8 +251,7 @@ class Runner:
                     for j, var in enumerate(v):
                         if "key_get2" in funcs:
                             o = os_(impl["key_get2"], k, p, var)
-                            self.judge("key_get2", k, p, var, o, m[M_KG2][j],
-                                       binding_spec(s[S_C2][j], False) if (kok and d2) else None, name)
+                            self.judge("key_get2", k, p, var, o, m[M_KG2][j], get2_expected(kok, d2, g2, s, j), name)
                             n += 1
                         if "key_get3" in funcs:
                             o = os_(impl["key_get3"], k, p, var)
@@ -374,6 +377,18 @@ def show(x):
     return repr(x)
 
 
+def get2_expected(kok, d2, g2, s, j):
+    """key_get2: unique decomposition (theorem C13_key_get2_iff_partial) -> exactly get2_spec;
+    otherwise documented form -> one of the candidate bindings"""
+    if not kok or not d2:
+        return None
+    if g2:
+        if [c for c in s[S_C2][j]] and s[S_G2][j] not in s[S_C2][j]:
+            return lambda impl: False          # the two specs contradict each other: surfaces as a failure
+        return [0, s[S_G2][j]]
+    return binding_spec(s[S_C2][j], False)
+
+
 def binding_spec(cands, lazy):
     """key_get2/key_get3 on a documented-form pattern: the text bound to the named segment.
     cands = binding of the name in every decomposition of the key along the pattern.
@@ -436,6 +451,12 @@ def gen_path_case(rng, style):
             env.setdefault(n, val)
             pat.append(":" + n if style == "colon" else "{" + n + "}")
             key.append(val)
+        elif style == "brace" and r < 0.43:
+            n1, n2 = rng.sample(NAMES, 2)
+            sep = rng.choice(["", "_", "-", "."])
+            v1, v2 = rand_seg(rng), rand_seg(rng)
+            pat.append("{" + n1 + "}" + sep + "{" + n2 + "}")
+            key.append(v1 + (sep if rng.random() < 0.7 else "") + (v2 if rng.random() < 0.8 else ""))
         elif style == "brace" and r < 0.5:
             n = rng.choice(NAMES)
             val = rand_seg(rng)
@@ -553,9 +574,11 @@ def class_cases(rng, n):
 # ---------------------------------------------------------------------- the run
 BUDGET = {
     # A: every pattern over the 8-character alphabet; B: documented-form patterns; G: glob alphabets
-    "quick": dict(A=(4, 3), B=(5, 4), G1=(5, 4), G2=(4, 3), random=3000, ipbase=12, classes=(4, 300), nl=(3, 3)),
-    "escalated": dict(A=(4, 4), B=(5, 5), G1=(5, 5), G2=(5, 4), random=10000, ipbase=40, classes=(5, 1000), nl=(4, 3)),
-    "thorough": dict(A=(5, 4), B=(6, 6), G1=(6, 5), G2=(5, 4), random=20000, ipbase=120, classes=(5, 3000), nl=(4, 4)),
+    "quick": dict(A=(4, 3), B=(5, 4), G1=(5, 4), G2=(4, 3), random=3000, ipbase=12, classes=(4, 300), nl=(3, 2)),
+    # after a broken proof/correspondence in quick: look for a failing input where it is most likely to be
+    # (longer documented-form patterns, more generated paths); the other strata are not repeated
+    "escalated": dict(A=None, B=(6, 4), G1=None, G2=None, random=12000, ipbase=None, classes=None, nl=None),
+    "thorough": dict(A=(4, 4), B=(6, 5), G1=(6, 5), G2=(5, 3), random=20000, ipbase=120, classes=(5, 3000), nl=(4, 3)),
 }
 
 
@@ -571,28 +594,34 @@ def run(chk, budget):
     qkeys = ["?", "/a?", "/a?b", "/a/?a", "/a?/b", "a?", "/a/b?a=/", "/?/a"]
 
     # G: glob_match over its own metacharacters (the defect-prone function first: minimal counterexamples)
-    pl, kl = b["G1"]
-    R.run_block("glob{/ab*?}", strings("/ab*?", pl), keys3(kl), ["glob_match"], wrappers_every=997)
-    pl, kl = b["G2"]
-    R.run_block("glob{/a*[]!-\\}", strings("/a*[]!-\\", pl), strings("/a]-!", kl), ["glob_match"], wrappers_every=997)
+    if b["G1"]:
+        pl, kl = b["G1"]
+        R.run_block("glob{/ab*?}", strings("/ab*?", pl), keys3(kl), ["glob_match"], wrappers_every=997)
+    if b["G2"]:
+        pl, kl = b["G2"]
+        R.run_block("glob{/a*[]!-\\}", strings("/a*[]!-\\", pl), strings("/a]-!", kl), ["glob_match"], wrappers_every=997)
     # A: all functions, every pattern over {/ a b : * { } ?}
-    pl, kl = b["A"]
-    R.run_block("all{/ab:*{}?}", strings("/ab:*{}?", pl), keys3(kl) + qkeys, ALL_FUNCS, wrappers_every=499)
+    if b["A"]:
+        pl, kl = b["A"]
+        R.run_block("all{/ab:*{}?}", strings("/ab:*{}?", pl), keys3(kl) + qkeys, ALL_FUNCS, wrappers_every=499)
     # B: documented-form patterns up to a larger bound, longer keys
-    pl, kl = b["B"]
-    docp, ncand = doc_patterns(chk, "/ab:*{}", pl)
-    R.strata["doc-form-filter"] = dict(candidates=ncand, documented=len(docp), maxlen=pl)
-    R.run_block("documented{/ab:*{}}", docp, keys3(kl) + qkeys,
-                ["key_match2", "key_match3", "key_match4", "key_match5", "key_get2", "key_get3"], wrappers_every=499)
+    if b["B"]:
+        pl, kl = b["B"]
+        docp, ncand = doc_patterns(chk, "/ab:*{}", pl)
+        R.strata["doc-form-filter"] = dict(candidates=ncand, documented=len(docp), maxlen=pl)
+        R.run_block("documented{/ab:*{}}", docp, keys3(kl) + qkeys,
+                    ["key_match2", "key_match3", "key_match4", "key_match5", "key_get2", "key_get3"], wrappers_every=499)
     # N: faithfulness of the regex-fragment model on '.', '+', '(', ')', digits, ',', newline
-    pl, kl = b["nl"]
-    R.run_block("regex-chars{/a.*+(1,}", strings("/a.*+(){1,}", pl), strings("/a1\n", kl),
-                ["key_match2", "key_match3", "key_match4", "key_match5", "key_get2", "key_get3"])
+    if b["nl"]:
+        pl, kl = b["nl"]
+        R.run_block("regex-chars{/a.*+(1,}", strings("/a.*+(){1,}", pl), strings("/a1\n", kl),
+                    ["key_match2", "key_match3", "key_match4", "key_match5", "key_get2", "key_get3"])
     # E: range_match
-    cl, nrand = b["classes"]
-    R.run_range(strings("ab]\\-!^", cl), "ab-]!^c", "range{ab]\\-!^}")
-    bodies, docs = class_cases(rng, nrand)
-    R.run_range(bodies, "abcdxyz0159_-]", "range-documented", doc=docs)
+    if b["classes"]:
+        cl, nrand = b["classes"]
+        R.run_range(strings("ab]\\-!^", cl), "ab-]!^c", "range{ab]\\-!^}")
+        bodies, docs = class_cases(rng, nrand)
+        R.run_range(bodies, "abcdxyz0159_-]", "range-documented", doc=docs)
     # C: generated longer paths, every function, wrappers and registered names on every case
     st = R.strata.setdefault("generated-paths", dict(cases=0))
     by_style = {}
@@ -616,10 +645,11 @@ def run(chk, budget):
         run_generated(R, "generated-" + style, groups, funcs)
         st["cases"] += len(lst)
     # D: ip_match
-    R.run_ip(ip_cases(rng, b["ipbase"]), "ip-grid")
-    mal = [(a, "10.0.0.0/8", None) for a in MALFORMED_IP] + [("10.1.2.3", n, None) for n in MALFORMED_NET] + \
-          [(a, n, None) for a in MALFORMED_IP[:6] for n in MALFORMED_NET[:6]]
-    R.run_ip(mal, "ip-malformed")
+    if b["ipbase"]:
+        R.run_ip(ip_cases(rng, b["ipbase"]), "ip-grid")
+        mal = [(a, "10.0.0.0/8", None) for a in MALFORMED_IP] + [("10.1.2.3", n, None) for n in MALFORMED_NET] + \
+              [(a, n, None) for a in MALFORMED_IP[:6] for n in MALFORMED_NET[:6]]
+        R.run_ip(mal, "ip-malformed")
 
     # kernel cross-check of the extracted oracle on a sample of small requests
     pool = R.vm_pool
@@ -640,6 +670,11 @@ def run(chk, budget):
     chk.exhaustive = True
     chk.spec_failures.sort(key=lambda r: (len(str(r["case"].get("pattern", r["case"].get("ip2", "")))) +
                                           len(str(r["case"].get("key", r["case"].get("ip1", ""))))))
+    if chk.spec_failures and str(chk.spec_failures[0]["case"].get("stratum", "")).startswith("generated"):
+        try:
+            chk.spec_failures[0] = shrink(chk, chk.spec_failures[0])
+        except Exception as e:  # noqa  (shrinking is best effort)
+            chk.notes.append(f"shrink failed: {e!r}")
     return R
 
 
@@ -654,7 +689,7 @@ def run_generated(R, name, groups, funcs):
     rep1 = chk.oracle.query([(1, [p, ks, v]) for (p, ks), v in zip(items, vs)])
     rep2 = chk.oracle.query([(2, [p, ks, v]) for (p, ks), v in zip(items, vs)])
     for (p, ks), v, rows, (flags, srows) in zip(items, vs, rep1, rep2):
-        d2, d3, d4, d5, is_star = flags
+        d2, d3, d4, d5, is_star, g2 = flags
         st["patterns"] += 1
         st["maxlen_pattern"] = max(st["maxlen_pattern"], len(p))
         for k, m, s in zip(ks, rows, srows):
@@ -688,8 +723,7 @@ def run_generated(R, name, groups, funcs):
             for j, var in enumerate(v):
                 if "key_get2" in funcs:
                     o = os_(impl["key_get2"], k, p, var)
-                    R.judge("key_get2", k, p, var, o, m[M_KG2][j], binding_spec(s[S_C2][j], False) if kok and d2 else None,
-                            name)
+                    R.judge("key_get2", k, p, var, o, m[M_KG2][j], get2_expected(kok, d2, g2, s, j), name)
                     n += 1
                 if "key_get3" in funcs:
                     o = os_(impl["key_get3"], k, p, var)
@@ -704,6 +738,56 @@ def run_generated(R, name, groups, funcs):
     if items:
         p, ks = items[len(items) // 2]
         chk.sample(dict(stratum=name, pattern=p, key=ks[0], impl={f: ob(impl[f], ks[0], p) for f in REGISTERED if f in funcs}))
+
+
+# ---------------------------------------------------------------------- shrinking of generated failures
+class _Stub:
+    """just enough of Check for a throw-away Runner"""
+
+    def __init__(self, chk):
+        import random
+        self.oracle, self.prop, self.rng = chk.oracle, chk.prop, random.Random(0)
+        self.evaluations, self.nontrivial, self.samples = 0, BulkSet(), []
+        self.spec_failures, self.disagreements, self.findings = [], [], []
+
+    def count(self, key=None, n=1):
+        self.evaluations += n
+
+    def sample(self, s, cap=6):
+        pass
+
+    def spec_fail(self, case, impl, expected, what, finding=None):
+        self.spec_failures.append(dict(case=case, impl_observation=impl, spec_expected=expected, what=what))
+
+    def disagree(self, case, impl, model, where=""):
+        self.disagreements.append(dict(case=case))
+
+
+def shrink(chk, rec, max_rounds=200):
+    """drop characters of the key / the pattern while the same function still violates its spec"""
+    c = rec["case"]
+    fn = c.get("fn")
+    if fn not in ALL_FUNCS or "key" not in c or c.get("via"):
+        return rec
+    k, p = c["key"], c["pattern"]
+    for _ in range(max_rounds):
+        cands = [(k[:i] + k[i + 1:], p) for i in range(len(k))] + [(k, p[:i] + p[i + 1:]) for i in range(len(p))]
+        groups = {}
+        for k2, p2 in cands:
+            groups.setdefault(p2, [])
+            if k2 not in groups[p2]:
+                groups[p2].append(k2)
+        stub = _Stub(chk)
+        R2 = Runner(stub)
+        R2.fail_cap = 10 ** 6
+        run_generated(R2, "shrunk", groups, [fn])
+        fails = [r for r in stub.spec_failures if r["case"].get("fn") == fn and not r["case"].get("via")]
+        if not fails:
+            break
+        best = min(fails, key=lambda r: (len(r["case"]["pattern"]) + len(r["case"]["key"]), r["case"]["pattern"]))
+        k, p = best["case"]["key"], best["case"]["pattern"]
+        rec = dict(best, case=dict(best["case"], shrunk_from=dict(key=c["key"], pattern=c["pattern"], stratum=c.get("stratum"))))
+    return rec
 
 
 # ---------------------------------------------------------------------- replay
